@@ -4,10 +4,22 @@ import gridlib as gl
 import vf
 
 
+def arbitrary_order(rnd, label):
+    """every point of a hierarchy-complete target set delivered in a shuffled order, mostly one sample per call:
+    children may arrive before their parents (local polynomial and wavelet grids; sequence and global for comparison)"""
+    fam = rnd.choice(["localp", "localp", "localp", "wavelet", "sequence", "global"])
+    line, info = gl.make_line(rnd, fam, d=rnd.choice([1, 2, 2, 3]), limits=[])
+    L = ["SCEN " + label, line, "begin", gl.cand_line(rnd, info).split(" 0")[0] if False else ("candl -1 -1 classic 0" if fam in ("localp", "wavelet") else "cand level 0 0 0")]
+    L.append("loadpool 1 0 %d %d" % (rnd.randint(1, 10 ** 6), rnd.choice([1, 1, 1, 2, 50])))
+    L.append("finish")
+    return "\n".join(L) + "\n"
+
+
 def run(ctx):
     rnd = random.Random(ctx.seed + 101)
     n = 240 if ctx.quick else 5000
     scens = [gl.history(rnd, "n%d" % i, steps=rnd.randint(3, 9), with_construct=True, with_transform=True) for i in range(n)]
+    scens += [arbitrary_order(rnd, "a%d" % i) for i in range(n // 3)]
     gen = gl.mc_and_scripts(ctx, ['localp2', 'globalcc', 'seq'], rnd, 80 if ctx.quick else 1500, maxlen=None if ctx.quick else 5, genlen=3 if ctx.quick else 4, mc=False)
     gl.run_grid(ctx, gen + [("nodal", scens)], gl.OBS_NODAL, "C01")
     ctx.assume("reproduction is judged by an observer at 1e-9 relative tolerance on integer token values; the spec decides when the property applies (local polynomial grids: all parents loaded)")
